@@ -21,6 +21,9 @@ type Req struct {
 	Boom   bool
 	Zero   int64
 	HoldUs int64
+	List   []int64 // Id, Id+1, Id+2
+	Fail2  bool    // a member of q4's conc block fails
+	Dirty  bool    // rule qd assigns a local and then faults
 }
 
 type Resp struct {
@@ -29,10 +32,19 @@ type Resp struct {
 	Out2  int64
 	Out3  int64
 	Out4  int64
+	Sum3  int64 // forRange + for accumulation over Req.List
+	Grade int64 // if / else-if / else chain
+	Mix   int64 // call with three arguments, the second one slow
+	C1    int64 // conc block members
+	C2    int64
+	Seen  int64 // must stay 0: rule ql reads a local it never assigned
 }
 
 type Key struct{ Id int64 }
 
+// The storm rules exercise every statement kind on request data, because all pool instances
+// (and all concurrent requests) execute the SAME syntax tree: per-execution state kept in a
+// tree node (an iterator, an argument buffer, an error list) shows up as cross-talk here.
 const stormRules = `
 rule "q1" "gate rule" salience 40
 begin
@@ -50,17 +62,38 @@ begin
   if Req.Boom {
     boom(Req.Id)
   }
+  Resp.Mix = mix(Req.Id, pause(Req.Id), Req.Id * 2)
   Resp.Out2 = Req.Id
   return Req.Id
 end
 rule "q3" salience 20
 begin
   obs(Req.Id, Resp.Token)
+  acc = 0
+  forRange k := Req.List {
+    acc = acc + Req.List[k]
+  }
+  for i = 0; i < 3; i += 1 {
+    acc = acc + i
+  }
+  Resp.Sum3 = acc
+  if Req.Id < 0 {
+    Resp.Grade = 1
+  } else if Req.Id > 0 {
+    Resp.Grade = 2
+  } else {
+    Resp.Grade = 3
+  }
   Resp.Out3 = Req.Id
   return Req.Id
 end
 rule "q4" salience 10
 begin
+  conc {
+    Resp.C1 = Req.Id
+    Resp.C2 = Req.Id + 1
+    cfail(Req.Fail2)
+  }
   Resp.Out4 = Req.Id
   return Req.Id
 end
@@ -68,9 +101,22 @@ rule "p1" salience 5 begin return k1.Id end
 rule "p2" salience 4 begin return k2.Id end
 rule "p3" salience 3 begin return k3.Id end
 rule "p4" salience 2 begin return k4.Id end
+rule "qd" salience 1
+begin
+  if Req.Dirty {
+    leak = Req.Id
+    if leak {
+      zz = 1
+    }
+  }
+end
+rule "ql" salience 0
+begin
+  Resp.Seen = leak
+end
 `
 
-var stormNames = []string{"q1", "q2", "q3", "q4", "p1", "p2", "p3", "p4"}
+var stormNames = []string{"q1", "q2", "q3", "q4", "p1", "p2", "p3", "p4", "qd", "ql"}
 
 // Gate counts rule bodies that are inside it and can hold them.
 type Gate struct {
@@ -146,6 +192,7 @@ type done struct {
 	callSeq  int64
 	retSeq   int64
 	healthy  bool
+	fail2    bool
 }
 
 // Storm is one pool scenario.
@@ -163,6 +210,7 @@ type Storm struct {
 	findings []StormFinding
 	dones    []*done
 	obsCalls int64
+	faults   bool // set during the storm phase: requests may carry Fail2 / Dirty
 }
 
 func (s *Storm) find(class, key, what string, extra interface{}) {
@@ -211,6 +259,16 @@ func NewStorm(k *fw.Case, jitter bool) (*Storm, error) {
 			}
 		},
 		"boom": func(id int64) { panic(fmt.Sprintf("request %d panics inside an injected function", id)) },
+		"mix":  func(a, b, c int64) int64 { return a + 3*b + 5*c },
+		"pause": func(x int64) int64 {
+			time.Sleep(20 * time.Microsecond)
+			return x + 1
+		},
+		"cfail": func(b bool) {
+			if b {
+				panic("a conc member fails on purpose")
+			}
+		},
 	}
 	var p *engine.GenginePool
 	err := trace.CompileLocked(func() error {
@@ -270,9 +328,13 @@ func (s *Storm) genCall(r *rand.Rand, gateOnly bool) trace.Call {
 // fire performs one request and checks what it got back (C06 clauses).
 func (s *Storm) fire(r *rand.Rand, c trace.Call, fail, boom bool, holdUs int64, keys []string) *done {
 	id := atomic.AddInt64(&s.nextID, 1)
-	req := &Req{Id: id, Fail: fail, Boom: boom, HoldUs: holdUs}
+	req := &Req{Id: id, Fail: fail, Boom: boom, HoldUs: holdUs, List: []int64{id, id + 1, id + 2}}
+	if s.faults && !fail && !boom {
+		req.Fail2 = r.Intn(7) == 0
+		req.Dirty = r.Intn(7) == 0
+	}
 	resp := &Resp{Token: tokenOf(id)}
-	d := &done{id: id, call: c, resp: resp, injected: map[string]bool{}, healthy: !fail && !boom}
+	d := &done{id: id, call: c, resp: resp, injected: map[string]bool{}, healthy: !fail && !boom && !req.Fail2, fail2: req.Fail2}
 	c.Data = map[string]interface{}{"Req": req, "Resp": resp}
 	if c.Method != trace.MPoolEM {
 		for _, kx := range keys {
@@ -340,6 +402,26 @@ func (s *Storm) checkIdentity(d *done, when string) {
 					break
 				}
 			}
+		}
+	}
+	// values computed by the statement kinds from the request's own data
+	if when == "at return" {
+		id := d.id
+		if _, ran := d.res["q2"]; ran && d.resp.Mix != id+3*(id+1)+5*(2*id) {
+			s.find("iso", m+"/foreign-arguments", fmt.Sprintf("%s: request %d: mix(Req.Id, pause(Req.Id), Req.Id*2) produced %d, its own arguments give %d", m, id, d.resp.Mix, id+3*(id+1)+5*(2*id)), map[string]interface{}{"call": d.call})
+		}
+		if _, ran := d.res["q3"]; ran && (d.resp.Sum3 != 3*id+6 || d.resp.Grade != 2) {
+			s.find("iso", m+"/loop-or-branch-disturbed", fmt.Sprintf("%s: request %d: forRange+for over its own list gave %d (expected %d), else-if chain gave grade %d (expected 2)", m, id, d.resp.Sum3, 3*id+6, d.resp.Grade), map[string]interface{}{"call": d.call})
+		}
+		if _, ran := d.res["q4"]; ran {
+			if d.fail2 {
+				s.find("iso", m+"/conc-error-lost", fmt.Sprintf("%s: request %d: a member of its conc block failed but the rule went on and returned", m, id), map[string]interface{}{"call": d.call})
+			} else if d.resp.C1 != id || d.resp.C2 != id+1 {
+				s.find("iso", m+"/conc-values", fmt.Sprintf("%s: request %d: conc block stored C1=%d C2=%d, expected %d %d", m, id, d.resp.C1, d.resp.C2, id, id+1), map[string]interface{}{"call": d.call})
+			}
+		}
+		if d.resp.Seen != 0 {
+			s.find("iso", m+"/stale-local", fmt.Sprintf("%s: request %d: a rule read a local it never assigned and got %d (left behind by another execution)", m, id, d.resp.Seen), map[string]interface{}{"call": d.call})
 		}
 	}
 	for i, o := range []int64{d.resp.Out1, d.resp.Out2, d.resp.Out3, d.resp.Out4} {
@@ -483,6 +565,7 @@ func (s *Storm) Run(clients, perClient int, faults bool) {
 		}
 	}
 	// phase 2: storm
+	s.faults = faults
 	var cwg sync.WaitGroup
 	for cl := 0; cl < clients; cl++ {
 		cwg.Add(1)
@@ -511,6 +594,7 @@ func (s *Storm) Run(clients, perClient int, faults bool) {
 		s.find("cap", "storm-stuck", "the request storm did not complete within the progress bound", dump())
 		return
 	}
+	s.faults = false
 	if mi := int(atomic.LoadInt32(&s.gate.maxInside)); mi > max {
 		s.find("cap", "more-than-max-inside", fmt.Sprintf("%d rule bodies were inside the gate at once, pool max=%d", mi, max), nil)
 	}
